@@ -197,7 +197,7 @@ func verifC04RetryRules() {
 	part := ccs[:vInt(0, 5)]
 	n, err := c.Write(vCat(hrr, part))
 	vAssert(err == nil && n == len(hrr)+len(part), "HelloRetryRequest forwarded")
-	variant := vInt(1, 14)
+	variant := vInt(1, 18)
 	rec, _, class, desc := vSecondHello(st, variant)
 	before := len(tr.out)
 	tr.in = append(tr.in, rec...)
